@@ -29,7 +29,8 @@ package main
 // EDestroy, need = max(0, a - (W+2)) selects are resolved for the send after it, then the stop branch and the cleanup;
 // it prints the number of such resolutions, the forwards after the stop (history of the channel), the chunks
 // received, the chunks left to the cleanup and `stopped`; Go prints the same from the observation with its own
-// arithmetic (files left and stopped are the OBSERVED values).
+// arithmetic (files left, stopped and the number of chunks the main loop took from the queue - read from the gauge
+// queued_chunks{state=persistent} - are the OBSERVED values).
 
 import (
 	"fmt"
@@ -57,6 +58,7 @@ const (
 type c18BacklogObs struct {
 	N, W, J, K   int64
 	R0, A, Left  int64
+	Loop         int64 // chunks the feeder's main loop took from the queue: N - queued_chunks{state=persistent} (-1: not read)
 	Stopped      bool
 	DestroyUs    int64
 	ConsumerDone bool
@@ -65,7 +67,7 @@ type c18BacklogObs struct {
 }
 
 func (o *c18BacklogObs) z(seed uint64, idx int) []int64 {
-	return []int64{int64(seed), int64(idx), o.N, o.W, o.J, o.K, o.R0, o.A, o.Left, b2i(o.Stopped)}
+	return []int64{int64(seed), int64(idx), o.N, o.W, o.J, o.K, o.R0, o.A, o.Left, b2i(o.Stopped), o.Loop}
 }
 
 func c18BacklogDesc(o *c18BacklogObs) string {
@@ -74,10 +76,10 @@ func c18BacklogDesc(o *c18BacklogObs) string {
 
 // c18BacklogOut: the projection the Coq replay prints, from the observation, with Go's own arithmetic.
 func c18BacklogOut(z []int64) string {
-	if len(z) < 10 {
+	if len(z) < 11 {
 		return "badcase"
 	}
-	n, w, k, r0, a, left, stopped := z[2], z[3], z[5], z[6], z[7], z[8], z[9]
+	n, w, k, r0, a, left, stopped, loop := z[2], z[3], z[5], z[6], z[7], z[8], z[9], z[10]
 	if n < 0 || w < 0 || k < 0 || r0 < 0 || a < 0 {
 		return "badcase"
 	}
@@ -97,7 +99,7 @@ func c18BacklogOut(z []int64) string {
 	if stopped != 0 {
 		st = 1
 	}
-	return fmt.Sprintf("ok:class=%s;need=%d;fwd=%d;recv=%d;left=%d;stopped=%d", class, need, need, recv, left, st)
+	return fmt.Sprintf("ok:class=%s;need=%d;fwd=%d;recv=%d;left=%d;loop=%d;stopped=%d", class, need, need, recv, left, loop, st)
 }
 
 // c18RunBacklog runs one scenario on the real bufferer.
@@ -120,7 +122,8 @@ func c18RunBacklog(n, w, j, k int) *c18BacklogObs {
 	e2eApplyParams(ep)
 	cfg := &hybridbuffer.Config{RootPath: root, MaxBufSize: datasize.GB}
 	match := func(id string) bool { return strings.HasSuffix(id, ".ff") }
-	buf := cfg.NewBufferer(logger.Root(), "p1", match, promreg.NewMetricFactory("c18backlog_", nil, nil), false)
+	factory := promreg.NewMetricFactory("c18backlog_", nil, nil)
+	buf := cfg.NewBufferer(logger.Root(), "p1", match, factory, false)
 	qdir := buf.(interface{ QueueDirPath() string }).QueueDirPath()
 	payload := make([]byte, 1024)
 	for i := range payload {
@@ -230,6 +233,7 @@ func c18RunBacklog(n, w, j, k int) *c18BacklogObs {
 		fail("c18:backlog:did-not-complete", "bufferer.Destroy() did not return within 30 s")
 		o.R0, o.A = atomic.LoadInt64(&r0), atomic.LoadInt64(&after)
 		o.Left = countFiles()
+		o.Loop = -1
 		return o
 	}
 	o.Stopped = atomic.LoadInt32(&stoppedAtReturn) == 1
@@ -241,6 +245,19 @@ func c18RunBacklog(n, w, j, k int) *c18BacklogObs {
 	}
 	o.R0, o.A = atomic.LoadInt64(&r0), atomic.LoadInt64(&after)
 	o.Left = countFiles()
+	o.Loop = -1
+	if mfs, gerr := factory.Gather(); gerr == nil {
+		for _, mf := range mfs {
+			if !strings.HasSuffix(mf.GetName(), "queued_chunks") {
+				continue
+			}
+			for _, m := range mf.Metric {
+				if e2eLabelsMatch(m, map[string]string{"state": "persistent"}) {
+					o.Loop = o.N - int64(e2eMetricValue(m))
+				}
+			}
+		}
+	}
 	// ---- oracle ----
 	need := o.A - (o.W + c18BacklogHand)
 	if need > o.K {
@@ -249,6 +266,10 @@ func c18RunBacklog(n, w, j, k int) *c18BacklogObs {
 	}
 	if !o.Stopped {
 		fail("c18:backlog:destroy-deadline", "Destroy returned after %d ms with the feeder still running (fallback deadline BufferShutDownTimeout + IntermediateChannelTimeout); received before/after the stop request %d/%d", o.DestroyUs/1000, o.R0, o.A)
+	}
+	if o.ConsumerDone && o.Stopped && o.Loop >= 0 && o.Loop-(o.R0+o.A) > 1 {
+		fail("c18:backlog:loaded-after-stop", "the feeder's main loop took %d chunks from the queue (recovered - queued_chunks{persistent}) but forwarded only %d: it went on taking (and loading) %d chunks of the backlog after it had seen the stop request; Destroy took %d ms",
+			o.Loop, o.R0+o.A, o.Loop-(o.R0+o.A)-1, o.DestroyUs/1000)
 	}
 	if o.ConsumerDone && o.Stopped && o.Left >= 0 && o.Left < o.N-(o.R0+o.A) {
 		fail("c18:backlog:chunk-only-in-memory", "%d chunks existed, the consumer received %d, but only %d chunk files are left after the shutdown: %d chunks are neither delivered nor on disk",
@@ -305,8 +326,8 @@ func c18GenBacklog(g *Gen) {
 			runs = append(runs, c18BacklogRun{idx, o})
 			idx++
 			if os.Getenv("C18_VERBOSE") != "" {
-				fmt.Fprintf(os.Stderr, "c18 backlog n=%-6d w=%-3d j=%-3d before/after %d/%d left %d stopped %v destroy %d us fails %d %s\n",
-					sc.n, sc.w, sc.j, o.R0, o.A, o.Left, o.Stopped, o.DestroyUs, len(o.Fails), o.Note)
+				fmt.Fprintf(os.Stderr, "c18 backlog n=%-6d w=%-3d j=%-3d before/after %d/%d left %d loop %d stopped %v destroy %d us fails %d %s\n",
+					sc.n, sc.w, sc.j, o.R0, o.A, o.Left, o.Loop, o.Stopped, o.DestroyUs, len(o.Fails), o.Note)
 			}
 		}
 		// secondary signal: the time of Destroy against 8x the backlog (same window, same stop trigger, same round)
@@ -371,7 +392,11 @@ func c18GenBacklog(g *Gen) {
 		if left < 0 {
 			left = 0
 		}
-		z := []int64{-1, int64(i), n, w, int64(r.Intn(30)), k, r0, a, left, 1}
+		loop := r0 + a
+		if loop < n {
+			loop++ // the chunk in the feeder's hand when it takes the stop branch
+		}
+		z := []int64{-1, int64(i), n, w, int64(r.Intn(30)), k, r0, a, left, 1, loop}
 		out := g.Case(2, nil, z)
 		if i := strings.IndexByte(out, ';'); i > 0 {
 			g.Count("backlog-sweep-" + out[:i])
@@ -386,7 +411,7 @@ var c18BacklogCache = map[string]*c18BacklogObs{}
 // c18RunBacklogCase: Run of a kind-2 case.
 func c18RunBacklogCase(c *Case) (string, []Fail) {
 	out := c18BacklogOut(c.Z)
-	if len(c.Z) < 10 || c.Z[0] < 0 || out == "badcase" {
+	if len(c.Z) < 11 || c.Z[0] < 0 || out == "badcase" {
 		return out, nil
 	}
 	if o, ok := c18BacklogCache[c.Line()]; ok {
